@@ -995,3 +995,212 @@ Example ex_area_wf : match all_areas with A :: _ => wf_area_b A = true /\ a_size
 Proof. vm_compute. split; reflexivity. Qed.
 Example ex_hidden_agree A : hidden_agree (a_regs A) (a_regs A).
 Proof. intros i r E _. exact E. Qed.
+
+(* ====================================================================== J. configuration round trip (numeric content) *)
+(* RegsProofs.load_fields_numeric / config_numeric_lemma with the frame: other top-level registers are not touched *)
+Lemma load_fields_numeric_frame V t : forall fs k0 g1 s St, wf_regs g1 -> t_sreg g1 t = Some s ->
+  (forall j f, nth_error fs j = Some f -> t_field g1 t (k0 + j) = Some f) ->
+  t_get g1 t true = Ok St ->
+  exists g2 s2, load_fields g1 t (numeric_cfg k0 fs V) = (g2, Ok tt) /\ wf_regs g2 /\ same_layout g1 g2 /\
+                t_sreg g2 t = Some s2 /\ t_get g2 t true = Ok (apply_fields St fs V) /\
+                (forall u r', top_of u <> top_of t -> t_get g2 u r' = t_get g1 u r').
+Proof.
+  induction fs as [|f rest IH]; intros k0 g1 s St Hg Hs Hf HS; cbn [numeric_cfg load_fields apply_fields fold_left].
+  - exists g1, s. repeat split; solve [assumption | reflexivity].
+  - assert (Hf0 : t_field g1 t k0 = Some f) by (specialize (Hf 0%nat f eq_refl); now rewrite Nat.add_0_r in Hf).
+    destruct (t_field_wf g1 t k0 f s Hg Hs Hf0) as (F1 & F2 & F3 & F4).
+    assert (Hp : in_range (f_width f) (pre_of f (post_of f (fbits f V)) false)).
+    { unfold pre_of, post_of. rewrite pre_post by assumption. apply getbits_range. lia. }
+    destruct (f_set_int_ok g1 t k0 f s _ true false Hg Hs Hf0 Hp) as (g' & rv & G1 & G2 & S1 & S2 & S3 & S4 & S5 & _).
+    rewrite HS in G1. injection G1 as <-.
+    rewrite Hf0. unfold f_set_enum. rewrite Hf0. cbn [to_int bind]. rewrite S1.
+    unfold pre_of, post_of in S4. rewrite pre_post in S4 by assumption.
+    destruct (same_layout_sreg g1 g' t s S3 Hs) as (s' & Hs' & _).
+    assert (Hf' : forall j f', nth_error rest j = Some f' -> t_field g' t (S k0 + j) = Some f').
+    { intros j f' Hj. rewrite (same_layout_field g1 g' t _ S3). specialize (Hf (S j) f' Hj). now rewrite Nat.add_succ_r in Hf. }
+    destruct (IH (S k0) g' s' _ S2 Hs' Hf' S4) as (g2 & s2 & L1 & L2 & L3 & L4 & L5 & L6).
+    exists g2, s2. split; [exact L1|]. split; [assumption|]. split; [eapply same_layout_trans; eassumption|]. split; [assumption|].
+    split; [assumption|]. intros u r' Hu. rewrite L6 by assumption. now apply S5.
+Qed.
+
+(* the numeric content of one top-level register: the value itself when it has no bit-fields, else every bit-field *)
+Definition nentry (fs : list field) (V : Z) : centry :=
+  match fs with [] => CVal (VInt V) | _ => CFields (numeric_cfg 0 fs V) end.
+
+Lemma load_nentry g1 t s V : wf_regs g1 -> t_sreg g1 t = Some s -> in_range (s_width s) V ->
+  (s_fields s = [] \/ tiles (s_fields s) (s_width s)) ->
+  exists g2, load_entry g1 t (nentry (s_fields s) V) = (g2, Ok tt) /\ wf_regs g2 /\ same_layout g1 g2 /\
+             t_get g2 t false = Ok V /\ (forall u r', top_of u <> top_of t -> t_get g2 u r' = t_get g1 u r').
+Proof.
+  intros Hg Hs HV Ht. unfold nentry. destruct (s_fields s) as [|f0 fr] eqn:Ef.
+  - destruct (t_set_ok g1 t s V false Hg Hs HV) as (g2 & T1 & T2 & T3 & T4 & T5 & _).
+    exists g2. unfold load_entry. rewrite Hs. cbn [cfg_value to_int bind]. rewrite T1. repeat split; assumption.
+  - destruct Ht as [Ht|Ht]; [discriminate|]. rewrite <- Ef in *.
+    destruct (t_get_total g1 t s true Hg Hs) as (St & HS & HSr).
+    destruct (load_fields_numeric_frame V t (s_fields s) 0 g1 s St Hg Hs) as (g2 & s2 & L1 & L2 & L3 & L4 & L5 & L6); [|assumption|].
+    { intros j f Hj. unfold t_field. now rewrite Hs. }
+    pose proof (t_sreg_wf g1 t s Hg Hs) as (B1 & _ & _ & BF & _).
+    rewrite (apply_fields_tiled (s_width s)) in L5 by (assumption || lia).
+    destruct (same_layout_sreg g1 g2 t s L3 Hs) as (s2' & Hs2 & Es).
+    destruct (erase_s_fields s s2' Es) as (_ & Ew & _).
+    assert (HV2 : in_range (s_width s2') V) by now rewrite Ew.
+    destruct (t_set_ok g2 t s2' V false L2 Hs2 HV2) as (g3 & T1 & T2 & T3 & T4 & T5 & _).
+    exists g3. split.
+    { unfold load_entry. rewrite Hs, L1, L5. cbn [bind]. rewrite T1. reflexivity. }
+    split; [assumption|]. split; [eapply same_layout_trans; eassumption|]. split; [assumption|].
+    intros u r' Hu. rewrite T5 by assumption. now apply L6.
+Qed.
+
+Definition fields_of (g : regs) (i : nat) : list field :=
+  match t_sreg g (Top i) with Some s => s_fields s | None => [] end.
+
+Lemma fields_of_layout g g' i : same_layout g g' -> fields_of g' i = fields_of g i.
+Proof.
+  intros H. unfold fields_of. destruct (t_sreg g (Top i)) as [s|] eqn:E.
+  - destruct (same_layout_sreg g g' _ s H E) as (s' & -> & Ee). now destruct (erase_s_fields s s' Ee) as (-> & _).
+  - destruct (t_sreg g' (Top i)) as [s'|] eqn:E'; [|reflexivity].
+    destruct (same_layout_sreg g' g _ s' (eq_sym H) E') as (s & E2 & _). congruence.
+Qed.
+
+(* register i can carry the value V through a configuration *)
+Definition cfg_ok (g : regs) (iv : nat * Z) : Prop :=
+  exists s, t_sreg g (Top (fst iv)) = Some s /\ in_range (s_width s) (snd iv) /\
+            (s_fields s = [] \/ tiles (s_fields s) (s_width s)).
+
+Lemma cfg_ok_layout g g' iv : same_layout g g' -> cfg_ok g iv -> cfg_ok g' iv.
+Proof.
+  intros H (s & E & R & T). destruct (same_layout_sreg g g' _ s H E) as (s' & E' & Ee).
+  destruct (erase_s_fields s s' Ee) as (Ef & Ew & _). exists s'. rewrite Ef, Ew. tauto.
+Qed.
+
+Definition numeric_config (g : regs) (l : list (nat * Z)) : list (ref * centry) :=
+  map (fun iv => (Top (fst iv), nentry (fields_of g (fst iv)) (snd iv))) l.
+
+Lemma load_numeric_all : forall l g1, wf_regs g1 -> NoDup (map fst l) -> Forall (cfg_ok g1) l ->
+  exists g2, load_cfg g1 (numeric_config g1 l) = (g2, Ok tt) /\ wf_regs g2 /\ same_layout g1 g2 /\
+    (forall i V, In (i, V) l -> t_get g2 (Top i) false = Ok V) /\
+    (forall u r', ~ In (top_of u) (map fst l) -> t_get g2 u r' = t_get g1 u r').
+Proof.
+  induction l as [|(i, V) rest IH]; intros g1 Hg Hnd Hc; cbn [numeric_config map load_cfg].
+  - exists g1. split; [reflexivity|]. split; [assumption|]. split; [apply same_layout_refl|]. split; [intros ? ? []|reflexivity].
+  - inversion Hc as [|? ? (s & Es & Rs & Ts) Hrest]; subst. cbn [fst snd] in *.
+    inversion Hnd as [|? ? Hni Hnd']; subst.
+    assert (Ef : fields_of g1 i = s_fields s) by (unfold fields_of; now rewrite Es). rewrite Ef.
+    destruct (load_nentry g1 (Top i) s V Hg Es Rs Ts) as (g2 & L1 & L2 & L3 & L4 & L5). rewrite L1.
+    destruct (IH g2 L2 Hnd') as (g3 & M1 & M2 & M3 & M4 & M5).
+    { eapply Forall_impl; [|exact Hrest]. intros iv. now apply cfg_ok_layout. }
+    assert (En : numeric_config g1 rest = numeric_config g2 rest).
+    { unfold numeric_config. apply map_ext. intros iv. now rewrite (fields_of_layout g1 g2 _ L3). }
+    fold (numeric_config g1 rest). rewrite En, M1.
+    exists g3. split; [reflexivity|]. split; [assumption|]. split; [eapply same_layout_trans; eassumption|]. split.
+    + intros i0 V0 [Heq|Hin]; [|now apply M4]. injection Heq as <- <-. rewrite M5; [exact L4|]. exact Hni.
+    + intros u r' Hu. cbn [map fst In] in Hu. rewrite M5 by tauto. apply L5. cbn [top_of]. intros Heq. apply Hu. left. now symmetry.
+Qed.
+
+(* the (non-raw) values of all top-level registers *)
+Fixpoint values_from (g : regs) (i : nat) (n : nat) : list (nat * Z) :=
+  match n with
+  | O => []
+  | S k => match t_get g (Top i) false with Ok v => (i, v) :: values_from g (S i) k | Err _ => values_from g (S i) k end
+  end.
+Definition values_of (g : regs) : list (nat * Z) := values_from g 0 (length (g_regs g)).
+
+Lemma values_from_fst g n : forall i x, In x (map fst (values_from g i n)) -> (i <= x < i + n)%nat.
+Proof.
+  induction n as [|n IH]; intros i x H; cbn [values_from] in H; [destruct H|].
+  destruct (t_get g (Top i) false); cbn [map fst In] in H; [destruct H as [<-|H]; [lia|]|]; apply IH in H; lia.
+Qed.
+
+Lemma values_from_nodup g n : forall i, NoDup (map fst (values_from g i n)).
+Proof.
+  induction n as [|n IH]; intros i; cbn [values_from]; [constructor|].
+  destruct (t_get g (Top i) false); [|apply IH]. cbn [map fst]. constructor; [|apply IH].
+  intros H. apply values_from_fst in H. lia.
+Qed.
+
+Lemma values_from_in g n : forall i j V, In (j, V) (values_from g i n) -> t_get g (Top j) false = Ok V.
+Proof.
+  induction n as [|n IH]; intros i j V H; cbn [values_from] in H; [destruct H|].
+  destruct (t_get g (Top i) false) eqn:E; [destruct H as [Heq|H]; [injection Heq as <- <-; exact E|]|]; eapply IH; eassumption.
+Qed.
+
+Lemma values_from_all g n : wf_regs g -> forall i j, (i <= j < i + n)%nat -> (j < length (g_regs g))%nat ->
+  exists V, In (j, V) (values_from g i n).
+Proof.
+  intros Hg. induction n as [|n IH]; intros i j Hj Hl; [lia|]. cbn [values_from].
+  destruct (Nat.eq_dec j i) as [->|Hne].
+  - destruct (nth_error (g_regs g) i) as [r|] eqn:E; [|apply nth_error_None in E; lia].
+    destruct (t_get_total g (Top i) (r_base r) false Hg) as (v & G & _); [cbn [t_sreg]; now rewrite E|].
+    rewrite G. exists v. now left.
+  - destruct (IH (S i) j) as (V & HV); [lia|assumption|]. exists V. destruct (t_get g (Top i) false); [now right|assumption].
+Qed.
+
+(* every register with bit-fields is tiled by them *)
+Definition all_tiled (g : regs) : Prop :=
+  forall i s, t_sreg g (Top i) = Some s -> s_fields s = [] \/ tiles (s_fields s) (s_width s).
+
+(* loading the numeric content of the configuration of g into any object g0 of the same layout gives every top-level
+   register (hence every bit-field) the value it has in g *)
+Theorem config_roundtrip_lemma_area g g0 : wf_regs g -> wf_regs g0 -> same_layout g g0 -> all_tiled g ->
+  exists g', load_cfg g0 (numeric_config g0 (values_of g)) = (g', Ok tt) /\ wf_regs g' /\ same_layout g g' /\
+    forall i, (i < length (g_regs g))%nat -> t_get g' (Top i) false = t_get g (Top i) false.
+Proof.
+  intros Hg Hg0 Hsl Ht.
+  destruct (load_numeric_all (values_of g) g0 Hg0 (values_from_nodup g _ 0)) as (g' & L1 & L2 & L3 & L4 & _).
+  { apply Forall_forall. intros (i, V) Hin. pose proof (values_from_in g _ 0 i V Hin) as G.
+    apply (cfg_ok_layout g g0 _ Hsl). cbn [t_get] in G.
+    destruct (nth_error (g_regs g) i) as [r|] eqn:E; [|discriminate].
+    assert (Es : t_sreg g (Top i) = Some (r_base r)) by (cbn [t_sreg]; now rewrite E).
+    destruct (t_get_total g (Top i) (r_base r) false Hg Es) as (v & G' & R). cbn [t_get] in G'. rewrite E in G'. rewrite G in G'. injection G' as <-.
+    exists (r_base r). split; [exact Es|]. split; [exact R|]. now apply (Ht i). }
+  exists g'. split; [exact L1|]. split; [exact L2|]. split; [eapply same_layout_trans; eassumption|].
+  intros i Hi. destruct (values_from_all g (length (g_regs g)) Hg 0 i) as (V & HV); [lia|assumption|].
+  rewrite (L4 i V HV). symmetry. eapply values_from_in; eassumption.
+Qed.
+
+(* ---------------------------------------------------------------- decidable tiling, and the statement for areas *)
+Definition tiles_b (fs : list field) (W : Z) : bool := forallb (covered fs) (zseq 0 (Z.to_nat W)).
+
+Lemma zseq_in n k : forall s, s <= n < s + Z.of_nat k -> In n (zseq s k).
+Proof.
+  induction k as [|k IH]; intros s H; [lia|]. cbn [zseq]. destruct (Z.eq_dec n s) as [->|Hne]; [now left|].
+  right. apply IH. lia.
+Qed.
+
+Lemma tiles_b_sound fs W : tiles_b fs W = true -> tiles fs W.
+Proof.
+  unfold tiles_b, tiles. intros H n Hn. rewrite forallb_forall in H. apply H. apply zseq_in. lia.
+Qed.
+
+Definition tiled_regs_b (g : regs) : bool :=
+  forallb (fun r => match s_fields (r_base r) with [] => true | fs => tiles_b fs (s_width (r_base r)) end) (g_regs g).
+
+Lemma tiled_regs_b_sound g : tiled_regs_b g = true -> all_tiled g.
+Proof.
+  unfold tiled_regs_b, all_tiled. intros H i s Es. cbn [t_sreg] in Es.
+  destruct (nth_error (g_regs g) i) as [r|] eqn:E; [|discriminate]. cbn [option_map] in Es. injection Es as <-.
+  rewrite forallb_forall in H. specialize (H r (nth_error_In _ _ E)).
+  destruct (s_fields (r_base r)) as [|f t] eqn:Ef; [now left|right]. rewrite <- Ef in *. now apply tiles_b_sound.
+Qed.
+
+Lemma all_tiled_layout g g' : same_layout g g' -> all_tiled g -> all_tiled g'.
+Proof.
+  intros Hsl Ht i s' Es'. destruct (same_layout_sreg g' g _ s' (eq_sym Hsl) Es') as (s & Es & Ee).
+  destruct (erase_s_fields s' s Ee) as (Ef & Ew & _). rewrite <- Ef, <- Ew. now apply (Ht i).
+Qed.
+
+(* converting an area object to its (numeric) configuration and loading it into a fresh object of the same area restores
+   the value of every top-level register, for every state of every well-formed area whose bit-fields tile their registers *)
+Theorem area_config_roundtrip_lemma A g : wf_area A -> tiled_regs_b (a_regs A) = true -> state_of A g ->
+  exists g', load_cfg (a_regs A) (numeric_config (a_regs A) (values_of g)) = (g', Ok tt) /\ state_of A g' /\
+    forall i, (i < length (g_regs g))%nat -> t_get g' (Top i) false = t_get g (Top i) false.
+Proof.
+  intros W Ht (Hg & Hsl).
+  assert (Ht' : all_tiled g) by (apply (all_tiled_layout (a_regs A)); [exact Hsl|now apply tiled_regs_b_sound]).
+  destruct (config_roundtrip_lemma_area g (a_regs A) Hg (wa_regs A W) (eq_sym Hsl) Ht') as (g' & L & Hg' & Hsl' & Hv).
+  exists g'. split; [exact L|]. split; [split; [exact Hg'|eapply same_layout_trans; eassumption]|exact Hv].
+Qed.
+
+(* how much of the database this covers is measured by the check (tiled_regs_b over all_areas) *)
+Example ex_tiled : match all_areas with A :: _ => tiled_regs_b (a_regs A) = true | [] => False end.
+Proof. vm_compute. reflexivity. Qed.
